@@ -426,6 +426,7 @@ func (c17) Run(u fw.Unit) fw.Result {
 				}
 			}
 			wantBase := want
+			rows0 := rows
 			// run 0: rows back to back; run 1 (short sequences): 1.5 s of virtual time after every row - the
 			// default configuration has no STATETTL, so idle groups must keep their state
 			failed0 := false
@@ -435,7 +436,10 @@ func (c17) Run(u fw.Unit) fw.Result {
 					onlyA = false
 				}
 			}
-			for run := 0; run < 3; run++ {
+			for run := 0; run < 4; run++ {
+				if run == 3 && (L > 3 || failed0) {
+					continue
+				}
 				if run == 1 && (L > 3 || failed0) {
 					continue // a failure that shows without pauses is reported once, under its own signature
 				}
@@ -448,6 +452,27 @@ func (c17) Run(u fw.Unit) fw.Result {
 				}
 				sql := sql
 				want := want
+				rows := rows
+				if run == 3 {
+					// the aggregated column under a mixed-case name, and no aggregate of the predicate in the SELECT list
+					paused = "|mixed-case-column-unselected"
+					sql = "SELECT k, count(*) AS c FROM stream GROUP BY k, GLOBAL WINDOW TRIGGER WHEN " + strings.ReplaceAll(p.SQL, "(v)", "(cpuLoad)")
+					want = nil
+					for _, w := range wantBase {
+						want = append(want, w[:strings.Index(w, ",s=")]+",s=NULL,a=NULL")
+					}
+					rows = nil
+					for _, r0 := range rows0 {
+						r1 := Row{}
+						for k, v := range r0 {
+							if k == "v" {
+								k = "cpuLoad"
+							}
+							r1[k] = v
+						}
+						rows = append(rows, r1)
+					}
+				}
 				if run == 2 {
 					// the same rows without GROUP BY (one implicit group), aggregates written in upper case
 					paused = "|no-group-by"
